@@ -9,6 +9,8 @@ CONSTANTS
   PriorTable = "persist_all"
   ViewSpace = "prior_mode"
   DerivedLookup = "derived"
+  ObsMerge = "always"
+  ObsParams <- MCObsParams
   Record = FALSE
   Export = "none"
   Params <- MCParams
